@@ -110,3 +110,51 @@ func VH_c11_merge_set() {
 	zz.Assert(in(m.Combine(m.Combine(a, b), c), ra, rb, rc) && in(m.Combine(a, m.Combine(b, c)), ra, rb, rc), "MergeSet: associative")
 	zz.Assert(in(m.Combine(m.Empty(), a), ra) && in(m.Combine(a, m.Empty()), ra), "MergeSet: Empty is an identity")
 }
+
+// Which representative survives: with an equivalence coarser than identity (records compared by id) the union
+// is right biased like the maps are - an element of the right operand replaces the equivalent element of the
+// left one, whatever the sizes of the two sets and also when the right operand adds no new class.
+type recT struct{ id, tag int }
+
+type recH struct{}
+
+func (recH) Eqv(a, b recT) bool { return a.id == b.id }
+func (recH) Hash(a recT) uint32 { return uint32(a.id) & 1 }
+
+func mkRecSet(name string, n int) (fp.Set[recT], map[int]int) {
+	s := immutable.Set[recT](recH{})
+	ref := map[int]int{}
+	k := zz.Choice(name+".n", n+1)
+	for i := 0; i < k; i++ {
+		e := recT{zz.Int(name + ".id" + string(rune('0'+i))), zz.Int(name + ".tag" + string(rune('0'+i)))}
+		s = s.Incl(e)
+		ref[e.id] = e.tag
+	}
+	return s, ref
+}
+
+func recAgree(s fp.Set[recT], ref map[int]int) bool {
+	n := 0
+	ok := true
+	s.Foreach(func(e recT) {
+		n++
+		t, has := ref[e.id]
+		if !has || t != e.tag {
+			ok = false
+		}
+	})
+	return ok && n == len(ref) && s.Size() == len(ref)
+}
+
+func VH_c11_merge_set_representatives() {
+	zz.Config("mapperm", 0)
+	a, ra := mkRecSet("a", 2)
+	b, rb := mkRecSet("b", 2)
+	m := monoid.MergeSet[recT]()
+	zz.Assert(recAgree(m.Combine(a, b), union(ra, rb)), "MergeSet: the right operand's element replaces an equivalent one of the left")
+	zz.Assert(recAgree(m.Combine(m.Empty(), a), ra) && recAgree(m.Combine(a, m.Empty()), ra), "MergeSet: Empty is an identity, elements unchanged")
+	c, rc := mkRecSet("c", 1)
+	// (Reduce starts from Empty, the zero-value set that compares with Go ==, so it is not asked here.)
+	zz.Assert(recAgree(m.Combine(m.Combine(a, b), c), union(union(ra, rb), rc)), "MergeSet: (a+b)+c, right bias at every step")
+	zz.Assert(recAgree(m.Combine(a, m.Combine(b, c)), union(union(ra, rb), rc)), "MergeSet: a+(b+c), right bias at every step")
+}
